@@ -1,36 +1,48 @@
 (* C18: what the Go printers write (Problem.CNF, Problem.PBString with
    costFuncString, Solver.PBString, explain's Problem.CNF) is read back by the
-   Go readers as the same problem.
+   Go readers as a problem with the same models and the same cost function; a
+   problem / solver whose status is Unsat is read back as an unsatisfiable
+   problem.
    Model: Model/TextPrint.v (printers), Model/Text.v (readers).
-   Refuted at full strength ([_refuted] below, details in Proofs/Text.v):
-   the empty clause in Problem.PBString, a negative cost coefficient in
-   Solver.PBString; and the number of variables is not preserved by the OPB
-   renderings ([opb_nbvars] = highest variable that occurs). *)
+   Known limit (finding_pbstring_loses_variables, Proofs/Text.v): the number of
+   variables read back from an OPB rendering is the highest variable that
+   occurs ([opb_nbvars]), not NbVars. *)
 From Coq Require Import List ZArith Bool String Ascii.
 From GS Require Import Spec.Base Spec.PB Spec.Solver Model.Text Model.TextPrint Proofs.Text.
 Import ListNotations.
 Open Scope Z_scope.
 
-(* Problem.CNF(): the unit literals come back as unit clauses, before the clauses *)
-Theorem C18_cnf : forall n units cls, wf_cnf_problem (n, units, cls) ->
-  parse_dimacs (print_cnf (n, units, cls)) = Some (n, map (fun u => [u]) units ++ cls).
+(* Problem.CNF(): the unit literals come back as unit clauses, before the
+   clauses; the empty clause alone when Status == Unsat *)
+Theorem C18_cnf : forall n unsat units cls, wf_cnf_problem (n, unsat, units, cls) ->
+  parse_dimacs (print_cnf (n, unsat, units, cls))
+  = Some (n, cnf_problem_clauses unsat units cls).
 Proof. exact Proofs.TextDimacs.C18_cnf. Qed.
 Print Assumptions C18_cnf.
-Example C18_cnf_hyp : wf_cnf_problem (3, [-2], [[1; 3]]).
+
+Theorem C18_cnf_models : forall n unsat units cls, wf_cnf_problem (n, unsat, units, cls) ->
+  exists F', parse_dimacs (print_cnf (n, unsat, units, cls)) = Some (n, F') /\
+             forall m, sat_cnf m F' = negb unsat && (forallb (lit_val m) units && sat_cnf m cls).
+Proof. exact Proofs.TextDimacs.C18_cnf_models. Qed.
+Print Assumptions C18_cnf_models.
+Example C18_cnf_hyp :
+  wf_cnf_problem (3, false, [-2], [[1; 3]]) /\ wf_cnf_problem (3, true, [1; -1], [[]; [7]]).
 Proof.
-  split; [discriminate|]. split.
-  - intros u [<-|[]]. split; discriminate.
-  - intros c [<-|[]] l [<-|[<-|[]]]; split; discriminate.
+  split.
+  - split; [discriminate|]. intros _. split.
+    + intros u [<-|[]]. split; discriminate.
+    + intros c [<-|[]] l [<-|[<-|[]]]; split; discriminate.
+  - split; [discriminate|]. discriminate.
 Qed.
 
 (* Problem.CNF() is a well-formed DIMACS text: the layout [] of render_dimacs *)
 Theorem C18_cnf_wellformed : forall n units cls,
-  print_cnf_b (n, units, cls) = render_dimacs_b [] n (map (fun u => [u]) units ++ cls).
+  print_cnf_b (n, false, units, cls) = render_dimacs_b [] n (map (fun u => [u]) units ++ cls).
 Proof. exact print_cnf_render. Qed.
 Print Assumptions C18_cnf_wellformed.
 
 (* Problem.PBString(): units as "1 l = 1", each constraint as "sum >= degree",
-   the cost function unchanged *)
+   the cost function unchanged; "1 x1 >= 2" alone when Status == Unsat *)
 Theorem C18_opb : forall P,
   wf_pb_problem P -> lines_short (list_ascii_of_string (print_opb P)) ->
   parse_opb (print_opb P)
@@ -43,26 +55,24 @@ Theorem C18_opb_models : forall P,
   exists n' cs',
     parse_opb (print_opb P) = Some (n', cs', pp_cost P) /\
     forall m, sat_uproblem m cs'
-              = forallb (lit_val m) (pp_units P) && sat_problem m (pp_clauses P).
+              = negb (pp_unsat P)
+                && (forallb (lit_val m) (pp_units P) && sat_problem m (pp_clauses P)).
 Proof. exact Proofs.Text.C18_opb_models. Qed.
 Print Assumptions C18_opb_models.
 Example C18_opb_hyp :
-  wf_pb_problem (PBProblem 3 [-2] [PBC [(2, 1); (1, -3)] 2] (Some [(1, 1); (-4, 3)])) /\
+  wf_pb_problem (PBProblem 3 false [-2] [PBC [(2, 1); (1, -3)] 2] (Some [(1, 1); (-4, 3)])) /\
   lines_short (list_ascii_of_string
-     (print_opb (PBProblem 3 [-2] [PBC [(2, 1); (1, -3)] 2] (Some [(1, 1); (-4, 3)])))).
+     (print_opb (PBProblem 3 false [-2] [PBC [(2, 1); (1, -3)] 2] (Some [(1, 1); (-4, 3)])))) /\
+  wf_pb_problem (PBProblem 3 true [1; -1] [PBC [] 1] None).
 Proof.
-  split; [|vm_compute; reflexivity].
-  constructor; [|constructor]. split; [discriminate|].
+  split; [|split; [vm_compute; reflexivity|discriminate]].
+  intros _. constructor; [|constructor]. split; [discriminate|].
   constructor; [discriminate|constructor].
 Qed.
 
-Theorem C18_opb_empty_clause_refuted :
-  exists P, lines_short (list_ascii_of_string (print_opb P)) /\ parse_opb (print_opb P) = None.
-Proof. exact Proofs.Text.C18_opb_empty_clause_refuted. Qed.
-Print Assumptions C18_opb_empty_clause_refuted.
-
-(* Solver.PBString(): the constraints the solver holds (original and learned)
-   and its top-level facts as "1 xN = 1" / "1 xN = 0" *)
+(* Solver.PBString(): the constraints the solver holds (original and learned),
+   "1 x1 >= 2" when its status is Unsat, and its top-level facts as
+   "1 xN = 1" / "1 xN = 0"; any cost function (negative coefficients included) *)
 Theorem C18_solver_opb : forall S,
   wf_solver_view S -> lines_short (list_ascii_of_string (print_solver_opb S)) ->
   parse_opb (print_solver_opb S)
@@ -75,27 +85,28 @@ Theorem C18_solver_opb_models : forall S,
   exists n' cs',
     parse_opb (print_solver_opb S) = Some (n', cs', sv_cost S) /\
     forall m, sat_uproblem m cs'
-              = sat_problem m (sv_orig S ++ sv_learned S) && facts_sat m 0 (sv_model S).
+              = sat_problem m (sv_orig S ++ sv_learned S)
+                && (negb (sv_unsat S) && facts_sat m 0 (sv_model S)).
 Proof. exact Proofs.Text.C18_solver_opb_models. Qed.
 Print Assumptions C18_solver_opb_models.
 Example C18_solver_opb_hyp :
-  wf_solver_view (SolverView 3 [PBC [(2, 1); (1, -3)] 2] [PBC [(1, 2); (1, 3)] 1]
-                             (Some [(-1, 1); (4, 3)]) [0; 1; -1]) /\
+  wf_solver_view (SolverView 3 false [PBC [(2, 1); (1, -3)] 2] [PBC [(1, 2); (1, 3)] 1]
+                             (Some [(1, 1); (-4, 3); (-2, 2)]) [0; 1; -1]) /\
   lines_short (list_ascii_of_string
-     (print_solver_opb (SolverView 3 [PBC [(2, 1); (1, -3)] 2] [PBC [(1, 2); (1, 3)] 1]
-                                   (Some [(-1, 1); (4, 3)]) [0; 1; -1]))).
+     (print_solver_opb (SolverView 3 false [PBC [(2, 1); (1, -3)] 2] [PBC [(1, 2); (1, 3)] 1]
+                                   (Some [(1, 1); (-4, 3); (-2, 2)]) [0; 1; -1]))).
 Proof.
-  split; [|vm_compute; reflexivity]. split.
-  - repeat constructor; discriminate.
-  - repeat constructor; discriminate.
+  split; [|vm_compute; reflexivity].
+  repeat constructor; discriminate.
 Qed.
 
-Theorem C18_solver_opb_negative_cost_refuted :
-  exists S, lines_short (print_solver_opb_b S) /\
-            Forall wf_pbc_print (sv_orig S ++ sv_learned S) /\
-            parse_opb_r (print_solver_opb_b S) = PPanic.
-Proof. exact Proofs.Text.C18_solver_opb_negative_cost_refuted. Qed.
-Print Assumptions C18_solver_opb_negative_cost_refuted.
+(* formerly C18_solver_opb_negative_cost_refuted *)
+Theorem C18_solver_opb_negative_cost :
+  parse_opb (print_solver_opb
+     (SolverView 2 false [PBC [(1, 1); (1, 2)] 1] [] (Some [(1, 1); (-2, 2)]) [0; 0]))
+  = Some (2, [UC [(1, 1); (1, 2)] Ge 1], Some [(1, 1); (-2, 2)]).
+Proof. exact Proofs.Text.fixed_solver_pbstring_negative_cost. Qed.
+Print Assumptions C18_solver_opb_negative_cost.
 
 (* explain's Problem.CNF() *)
 Theorem C18_explain : forall n F, wf_dimacs n F ->
